@@ -2,6 +2,8 @@
 # Developer tool: applies each behaviour-preserving refactoring of selftest/refactorings to a scratch copy
 # and runs every check on it. Any VIOLATED / UNDECIDED / ANALYSIS-FAILURE line is a false alarm to be fixed.
 export GOFLAGS=-mod=mod GOPROXY=off GOSUMDB=off GOTOOLCHAIN=local
+/verif/check.sh C03 quick >/dev/null 2>&1
+export VERIF_BIN=$(mktemp /tmp/gosqlx-sa.XXXXXX); cp /verif/bin/gosqlx-sa $VERIF_BIN; chmod +x $VERIF_BIN
 props="C01 C02 C03 C04 C05 C06 C07 C08 C09 C10 C11 C12 C13 C14 C15 C16 C18 C19 C20"
 for d in /verif/selftest/refactorings/*.diff; do
   [ -s "$d" ] || { echo "EMPTY $d"; continue; }
@@ -14,3 +16,4 @@ for d in /verif/selftest/refactorings/*.diff; do
   done
   rm -rf "$s"
 done
+rm -f $VERIF_BIN
